@@ -10,6 +10,9 @@ import signal
 import time
 from urllib.parse import parse_qs
 
+# a slow-importing application (used with --preload to stretch a master's boot)
+time.sleep(float(os.environ.get("VERIF_BOOT_SLEEP", "0") or 0))
+
 
 def ident():
     return ("pid=%d marker=%s ruid=%s rgid=%s groups=%s" % (
